@@ -692,4 +692,9 @@ def c04_vertex_curvature(ctx):
     from .C04 import vertex_curvature as _r
     return _r(ctx)
 
-RULES = [c04_vertex_curvature, c01_wiring, dispatch, keys_and_wiring, vocab, parm_offset, mode_raises, glass]
+def c18_exact_name_first(ctx):
+    """shared with C18: GLAS names are resolved through Material(name)"""
+    from .C18 import exact_name_first as _r
+    return _r(ctx)
+
+RULES = [c18_exact_name_first, c04_vertex_curvature, c01_wiring, dispatch, keys_and_wiring, vocab, parm_offset, mode_raises, glass]
